@@ -54,7 +54,7 @@ pub fn h_vacant_insert_full_frame<K: Shape, V: Shape, const N: usize>() {
 // *move* elements, hence "slot j afterwards is bit-identical to slot j' before" is
 // the strongest statement of what they do.
 
-pub const MAXB: usize = 16;
+pub const MAXB: usize = 8;
 
 #[derive(Clone, Copy)]
 pub struct Snap {
@@ -179,7 +179,7 @@ impl<K: kani::Arbitrary, V: kani::Arbitrary, const N: usize> kani::Arbitrary for
 
 /// which: 0 item_read 1 item_write 2 item_drop 3 item_ref 4 item_mut 5 value_mut
 pub fn h_accessor<const N: usize>(which: u8) {
-    let mut m: Map<u8, u16, N> = any_map_weak_raw();
+    let mut m: Map<u8, u8, N> = any_map_weak_raw();
     let i: usize = kani::any();
     kani::cover!(i < N, "reached");
     match which {
@@ -198,6 +198,9 @@ pub fn h_accessor<const N: usize>(which: u8) {
             let _ = unsafe { m.value_mut(i) };
         }
     }
+    // `Map::drop` calls item_drop itself; Kani allows only one top-level call of the
+    // function whose contract is being checked
+    core::mem::forget(m);
 }
 
 fn any_map_weak_raw<K: kani::Arbitrary, V: kani::Arbitrary, const N: usize>() -> Map<K, V, N> {
@@ -205,7 +208,7 @@ fn any_map_weak_raw<K: kani::Arbitrary, V: kani::Arbitrary, const N: usize>() ->
 }
 
 pub fn h_remove_index_read<const N: usize>() {
-    let mut m: Map<u8, u16, N> = any_map_weak_raw();
+    let mut m: Map<u8, u8, N> = any_map_weak_raw();
     let i: usize = kani::any();
     kani::cover!(i < m.len, "reached");
     let _ = unsafe { m.remove_index_read(i) };
